@@ -53,6 +53,20 @@ def main():
                 v = _api._store().fetch_blob(key)
                 want = {"string": "legacy-text", "bytes": b"\x00legacy\xff", "pickle": {"legacy": [1, 2]}}[kind]
                 out.append("G:" + ("equal" if v == want and type(v) == type(want) else "DIFFERENT:" + repr(v)[:60]))
+            elif "legacy_sync" in st:
+                # a path is committed to a blob written by an older version (metadata names a legacy codec reference)
+                from collections import OrderedDict
+                key, ref, kind, path = st["legacy_sync"]
+                content = {"string": "legacy-text".encode("utf-8"), "bytes": b"\x00legacy\xff", "pickle": pickle.dumps({"legacy": [1, 2]})}[kind]
+                dbu.fs.files["dbfs:/s/internal/blobs/" + key] = content
+                dbu.fs.files["dbfs:/s/internal/blobs/" + key + ".meta"] = json.dumps({"protocol": ref, "timestamp_millis": 1}).encode()
+                _api._store().sync_paths(OrderedDict([(path, key)]))
+                want = {"string": "legacy-text", "bytes": b"\x00legacy\xff", "pickle": {"legacy": [1, 2]}}[kind]
+                try:
+                    v = dds.load(path)
+                    out.append("S:" + ("equal" if v == want and type(v) == type(want) else "DIFFERENT:" + repr(v)[:60]))
+                except DDSException:
+                    out.append("S:not-loadable")
         except DDSException as e:
             c = getattr(e, "error_code", None)
             out.append("E:" + (c.name if c is not None else "NONE"))
